@@ -3,14 +3,14 @@ import core
 
 RULE = ("case = one configuration (T in {2,3,4,8,16} threads) x (delay mode: none / sleeps injected inside the library's own mprotect, "
         "munmap and __clear_cache calls / mixed with yields); every thread loops over a seeded script of {injector + thread-specific fake "
-        "on ONE shared function, injector without install, preventer; one injector in four is obtained through the Default impl instead of the constructor} x {leave by drop, leave by panic}. Monitors: in-critical-section "
+        "on ONE shared function, injector without install, preventer; one injector in four is obtained through the Default impl instead of the constructor; one acquisition in eight is made by a thread holding a stale unpark token} x {leave by drop, leave by panic}. Monitors: in-critical-section "
         "counter (must read 0 right after a constructor returns), owner cell re-read through the scope, first call right after acquiring "
         "must be original, later calls must be the holder's own fake (injector) or original (preventer), a plain non-atomic cell "
         "incremented only under the guard must equal the number of acquisitions, bounded hand-over (no guard alive + a waiter blocked for "
         "30 s = violation; a fresh thread must get both guard kinds after the run). Three more trials, each the last thing its process does: the "
         "thread that holds a guard asks for a second one (injector in injector, preventer in injector, injector in preventer); if it is "
         "granted (today it waits for itself for good) the outer guard is dropped first and another thread must still be kept out, and a "
-        "preventer holder must still see the original. distinct = (threads, delay mode) configurations; the "
+        "preventer holder must still see the original. Thorough tier: one holder keeps its guard for 40 s with a waiter queued; the waiter must neither get in early nor be turned away, and must get a working guard afterwards. distinct = (threads, delay mode) configurations; the "
         "evidence lists contended hand-overs, distinct predecessor->successor transitions (36 possible) and distinct acquisition-order windows")
 
 
